@@ -377,6 +377,44 @@ func (vc *VC) ghostHeap(structT types.Type, g *GhostField) (*heapInfo, error) {
 	// ghost maps are total SMT arrays: map[K]V → (Array K V); nested maps nest.
 	return vc.heapDecl(&heapInfo{name: name, kind: heapGhost, valType: t, valSort: vc.ghostSort(t), levels: 1}), nil
 }
+// Engine-level ghost state (never written by the code, excluded from frame checks like declared ghost fields):
+//   - evalcount: how many times each function value has been called through a function type under contract
+//     (spec term evalcount(f)); incremented at such a call, havocked at every other impure call;
+//   - visited_n: the set of keys the n-th map iteration of the function has produced so far (spec term visited(k)
+//     in the invariants of that range loop).
+// Both are only materialised for functions whose contract mentions them (mentions()).
+func (vc *VC) evalCountHeap() *heapInfo {
+	return vc.heapDecl(&heapInfo{name: "HG_evalcount", kind: heapGhost, valSort: "(Array Int Int)", levels: 0})
+}
+func (vc *VC) visitedHeap(n int, keySort string) *heapInfo {
+	return vc.heapDecl(&heapInfo{name: fmt.Sprintf("HG_visited_%s_%d", sanitize(keySort), n), kind: heapGhost, valSort: "(Array " + keySort + " Bool)", levels: 0, keySort: keySort})
+}
+
+// mentions reports whether any clause of the contract contains the given text.
+func (fc *FuncContract) mentions(what string) bool {
+	if fc == nil {
+		return false
+	}
+	for _, c := range fc.Requires {
+		if strings.Contains(c.Text, what) {
+			return true
+		}
+	}
+	for _, c := range fc.Ensures {
+		if strings.Contains(c.Text, what) {
+			return true
+		}
+	}
+	for _, l := range fc.Loops {
+		for _, c := range l.Invariants {
+			if strings.Contains(c.Text, what) {
+				return true
+			}
+		}
+	}
+	return false
+}
+
 func (vc *VC) ghostSort(t types.Type) string {
 	if m, ok := t.Underlying().(*types.Map); ok {
 		return "(Array " + vc.sorts.sortOf(m.Key()) + " " + vc.ghostSort(m.Elem()) + ")"
